@@ -3,6 +3,11 @@
         (sinterp "<bytes>")    -> OK "<fmt>" ("v" ...) | DIAG <msg>
         (reinterp "<bytes>")   -> OK "<bytes>" | DIAG <msg>
         (keywords)             -> kw:(TYPE) ... sorted
+        (drive (args "a.fo" ...) (files "a.fo" "gen_b.go" ...) (dirs ...) (unwritable ...) (bad i ...))
+                               -> EXIT0 written=(<dest>:<arg index> ...) | FAIL <k> <READ|TRANSLATE|WRITE> written=(...)
+          files: regular files present (inputs and pre-existing outputs); bad: argument indices whose translation fails;
+          written: destinations of the .fo arguments whose final content was written by this run, with the
+          index of the argument that wrote it last (sorted by name)
    payload: - (none) | s<hex> (stringVal) | i<decimal> (intVal, 64-bit two's complement)
    fuel is always length+1 (theorems scan_total, tokenize_terminates, parse_sinterp_total) *)
 open Sexp
@@ -71,6 +76,22 @@ let () = Registry.register "C16" (function
        | EOk r -> "OK " ^ quote (string_of_bytes r)
        | EDiag m -> "DIAG " ^ implode m
        | EOutOfFuel -> "FUEL")
+    | L [A "drive"; L (A "args" :: args); L (A "files" :: files); L (A "dirs" :: dirs); L (A "unwritable" :: unw); L (A "bad" :: bad)] ->
+      let names l = List.map (fun x -> explode (str_of x)) l in
+      let argl = names args in
+      let r = drive (List.map (fun x -> nat_of_int (int_of x)) bad) argl (names files) (names dirs) (names unw) in
+      let dests = List.sort_uniq compare
+          (List.filter_map (fun a -> if fo_is_fo a then Some (implode (fo_dest a)) else None) argl) in
+      let written = List.filter_map (fun d ->
+          match final_content r (explode d) with
+          | Some [c] when int_of_nat c >= 100 -> Some (Printf.sprintf "%s:%d" d (int_of_nat c - 100))
+          | _ -> None) dests in
+      let w = " written=(" ^ String.concat " " written ^ ")" in
+      (match r with
+       | Done (_, _) -> "EXIT0" ^ w
+       | Failed (k, why, _, _) ->
+         Printf.sprintf "FAIL %d %s%s" (int_of_nat k)
+           (match why with ReadFail -> "READ" | TranslateFail -> "TRANSLATE" | WriteFail -> "WRITE") w)
     | L [A "keywords"] ->
       String.concat " " (List.sort compare (List.map (fun (k, t) -> implode k ^ ":" ^ tname t) keyword_names))
     | _ -> "ERR bad C16 request")
